@@ -346,7 +346,8 @@ func (e *Env) modelDecodeOne(l *facts.Level, rule string) *decodeOneModel {
 			}
 			fv, _ := fieldStore.Addr.Obj.(*types.Var)
 			arm.Field = fv
-			if mark.Key.Key() != name.Key() || !isTrueConst(mark.Val) {
+			// (on this path the token's name equals n, so the constant n is the token's name)
+			if (mark.Key.Key() != name.Key() && !isStringConst(mark.Key, n)) || !isTrueConst(mark.Val) {
 				bad(lf, "duplicate-mark", "metric "+n+": names[<token name>] = true is not what is recorded: names["+mark.Key.Pretty()+"] = "+mark.Val.Pretty())
 			}
 			// value: parser on the value part
@@ -445,7 +446,9 @@ func (e *Env) modelDecodeOne(l *facts.Level, rule string) *decodeOneModel {
 		}
 		// tests that must precede: duplicate test before name switch etc.
 		if ri.Kind == "bad-code" || ri.Kind == "foreign-name" {
-			if !hasGuard(lf, ir.NotCond(dup)) {
+			// (a name of another level is never recorded - marks are made on accepting paths only, each selected by a
+			// name of this level - so whether it is refused before or after the duplicate test is the same)
+			if ri.Kind == "bad-code" && !hasGuard(lf, ir.NotCond(dup)) {
 				bad(lf, "duplicate-test", "the metric name is examined without first testing names[name] (duplicate detection)")
 			}
 			for _, g := range shape {
